@@ -54,6 +54,56 @@ fn gen_term(rng: &mut Rng, depth: u32, nvars: u64) -> R {
     }
 }
 
+// Wrap some subterms of a real term in RESOLVED holes `Unifier(cell = Some(content), shift)`.  By the hole
+// model a resolved hole stands for its content raised by `shift`, so the content stored is the subterm shifted
+// DOWN by `shift` when that is possible (otherwise shift 0 is used).
+fn add_holes(t: &Term<'static>, rng: &mut Rng) -> Term<'static> {
+    let rc = |x: &Rc<Term<'static>>, rng: &mut Rng| Rc::new(add_holes(x, rng));
+    let inner_variant = match &t.variant {
+        Variant::Lambda(n, i, a, b) => Variant::Lambda(n, *i, rc(a, rng), rc(b, rng)),
+        Variant::Pi(n, i, a, b) => Variant::Pi(n, *i, rc(a, rng), rc(b, rng)),
+        Variant::Application(a, b) => Variant::Application(rc(a, rng), rc(b, rng)),
+        Variant::Negation(a) => Variant::Negation(rc(a, rng)),
+        Variant::Sum(a, b) => Variant::Sum(rc(a, rng), rc(b, rng)),
+        Variant::Difference(a, b) => Variant::Difference(rc(a, rng), rc(b, rng)),
+        Variant::Product(a, b) => Variant::Product(rc(a, rng), rc(b, rng)),
+        Variant::Quotient(a, b) => Variant::Quotient(rc(a, rng), rc(b, rng)),
+        Variant::LessThan(a, b) => Variant::LessThan(rc(a, rng), rc(b, rng)),
+        Variant::LessThanOrEqualTo(a, b) => Variant::LessThanOrEqualTo(rc(a, rng), rc(b, rng)),
+        Variant::EqualTo(a, b) => Variant::EqualTo(rc(a, rng), rc(b, rng)),
+        Variant::GreaterThan(a, b) => Variant::GreaterThan(rc(a, rng), rc(b, rng)),
+        Variant::GreaterThanOrEqualTo(a, b) => Variant::GreaterThanOrEqualTo(rc(a, rng), rc(b, rng)),
+        Variant::If(a, b, c) => Variant::If(rc(a, rng), rc(b, rng), rc(c, rng)),
+        Variant::Let(defs, body) => Variant::Let(defs.iter().map(|d| (d.0, rc(&d.1, rng), rc(&d.2, rng))).collect(), rc(body, rng)),
+        other => other.clone(),
+    };
+    let rebuilt = Term { source_range: None, variant: inner_variant };
+    if rng.below(6) != 0 { return rebuilt; }
+    let shift = rng.below(3) as usize;
+    // content = rebuilt shifted down by `shift` if possible (so that content raised by shift is rebuilt again)
+    match reference::r_shift(&to_r(&rebuilt), 0, -(shift as i64)) {
+        Some(_) if !has_hole(&rebuilt) => {
+            let content = de_bruijn::signed_shift(&rebuilt, 0, -(shift as isize)).expect("downward shift");
+            Term { source_range: None, variant: Variant::Unifier(Rc::new(std::cell::RefCell::new(Some(content))), shift) }
+        }
+        _ => Term { source_range: None, variant: Variant::Unifier(Rc::new(std::cell::RefCell::new(Some(rebuilt))), 0) },
+    }
+}
+
+fn has_hole(t: &Term) -> bool {
+    let h = |x: &Rc<Term>| has_hole(x);
+    match &t.variant {
+        Variant::Unifier(_, _) => true,
+        Variant::Lambda(_, _, a, b) | Variant::Pi(_, _, a, b) | Variant::Application(a, b) | Variant::Sum(a, b) | Variant::Difference(a, b)
+        | Variant::Product(a, b) | Variant::Quotient(a, b) | Variant::LessThan(a, b) | Variant::LessThanOrEqualTo(a, b) | Variant::EqualTo(a, b)
+        | Variant::GreaterThan(a, b) | Variant::GreaterThanOrEqualTo(a, b) => h(a) || h(b),
+        Variant::Negation(a) => h(a),
+        Variant::If(a, b, c) => h(a) || h(b) || h(c),
+        Variant::Let(defs, body) => defs.iter().any(|d| h(&d.1) || h(&d.2)) || h(body),
+        _ => false,
+    }
+}
+
 fn size(t: &R) -> usize { match t { R::Var(_) => 1, R::Node(_, k) => 1 + k.iter().map(size).sum::<usize>() } }
 
 fn from_r(t: &R) -> Term<'static> {
@@ -93,7 +143,11 @@ fn from_r(t: &R) -> Term<'static> {
 fn to_r(t: &Term) -> R {
     let r = |t: &Rc<Term>| to_r(t);
     match &t.variant {
-        Variant::Unifier(_, _) => R::Node(K::Type, vec![R::Var(usize::MAX)]), // never generated; marks a hole
+        Variant::Unifier(cell, shift) => match &*cell.borrow() {
+            // the hole model: a resolved hole stands for its content raised by its shift
+            Some(content) => reference::r_shift(&to_r(content), 0, *shift as i64).expect("upward shift"),
+            None => R::Node(K::Type, vec![R::Var(usize::MAX)]), // unresolved: never generated
+        },
         Variant::Variable(_, i) => R::Var(*i),
         Variant::Type => R::Node(K::Type, vec![]),
         Variant::Integer => R::Node(K::Integer, vec![]),
@@ -131,13 +185,16 @@ fn case(target: &str, rng: &mut Rng) -> Option<(String, String, String, usize)> 
     let depth = 1 + rng.below(3) as u32;
     let t = gen_term(rng, depth, 2);
     let c = rng.below(4) as usize;
-    let real_t = from_r(&t);
+    let plain_t = from_r(&t);
+    let holey = rng.below(3) == 0;
+    let real_t = if holey { add_holes(&plain_t, rng) } else { plain_t };
+    let tag = if has_hole(&real_t) { " [some subterms wrapped in resolved holes]" } else { "" };
     match target {
         "signed_shift" | "unsigned_shift" => {
             let d = if target == "signed_shift" { rng.below(7) as i64 - 3 } else { rng.below(4) as i64 };
             let want = reference::r_shift(&t, c, d);
             let got = if target == "signed_shift" { de_bruijn::signed_shift(&real_t, c, d as isize).map(|x| to_r(&x)) } else { Some(to_r(&de_bruijn::unsigned_shift(&real_t, c, d as usize))) };
-            if got != want { return Some((format!("{target}(term = {}, cutoff = {c}, amount = {d})", reference::show(&t)), opt(&got), opt(&want), size(&t))); }
+            if got != want { return Some((format!("{target}(term = {}, cutoff = {c}, amount = {d}){tag}", reference::show(&t)), opt(&got), opt(&want), size(&t))); }
         }
         "open" => {
             let ud = 1 + rng.below(2) as u32;
@@ -145,7 +202,7 @@ fn case(target: &str, rng: &mut Rng) -> Option<(String, String, String, usize)> 
             let s = rng.below(3) as usize;
             let want = reference::r_open(&t, c, &u, s);
             let got = to_r(&de_bruijn::open(&real_t, c, &from_r(&u), s));
-            if got != want { return Some((format!("open(term_to_open = {}, index_to_replace = {c}, term_to_insert = {}, shift_amount = {s})", reference::show(&t), reference::show(&u)), reference::show(&got), reference::show(&want), size(&t) + size(&u))); }
+            if got != want { return Some((format!("open(term_to_open = {}, index_to_replace = {c}, term_to_insert = {}, shift_amount = {s}){tag}", reference::show(&t), reference::show(&u)), reference::show(&got), reference::show(&want), size(&t) + size(&u))); }
         }
         "free_variables" => {
             let mut want = BTreeSet::new();
@@ -153,16 +210,18 @@ fn case(target: &str, rng: &mut Rng) -> Option<(String, String, String, usize)> 
             let mut set = HashSet::new();
             term::free_variables(&real_t, c, &mut set);
             let got: BTreeSet<usize> = set.into_iter().collect();
-            if got != want { return Some((format!("free_variables(term = {}, cutoff = {c})", reference::show(&t)), format!("{got:?}"), format!("{want:?}"), size(&t))); }
+            if got != want { return Some((format!("free_variables(term = {}, cutoff = {c}){tag}", reference::show(&t)), format!("{got:?}"), format!("{want:?}"), size(&t))); }
         }
         "is_value" => {
-            let (got, want) = (evaluator::is_value(&real_t), reference::r_value(&t));
+            let (got, want) = (evaluator::is_value(&real_t), reference::r_value(&t) && !matches!(real_t.variant, Variant::Unifier(_, _)));
             if got != want { return Some((format!("is_value({})", reference::show(&t)), format!("{got}"), format!("{want}"), size(&t))); }
         }
         "step" | "step_strict" | "evaluate" => {
             let want = reference::r_step(&t);
             let got = evaluator::step(&real_t).map(|x| to_r(&x));
-            if got != want { return Some((format!("step({})", reference::show(&t)), opt(&got), opt(&want), size(&t))); }
+            // with holes the code may also make a silent step that only replaces a resolved hole (same view)
+            let silent = has_hole(&real_t) && got.as_ref() == Some(&t);
+            if got != want && !silent { return Some((format!("step({}){tag}", reference::show(&t)), opt(&got), opt(&want), size(&t))); }
         }
         _ => {}
     }
